@@ -847,6 +847,11 @@ func publisherConcurrent(r *ev.Run, w *world) {
 			r.Violation(f.Sig, map[string]interface{}{"scenario": sc, "schedule": append([]int{}, schedule...), "trace": x2.Trace})
 		}
 		e.Run()
+		if okr, badr := e.ValidateReplays(); badr > 0 {
+			r.Violation("HARNESS: NONDETERMINISM: an explored schedule does not reproduce when replayed", nil)
+		} else {
+			r.Validated(okr)
+		}
 		r.Eval(e.Execs)
 		r.States(e.Execs)
 		r.Transitions(e.PointsTotal)
